@@ -605,6 +605,10 @@ func (s *structVM) newChildField(parent *fieldVM, child *fieldVM, toBind bool) *
 					parent.ensureInit(newField.Elem())
 				}
 				for i := 0; i < parent.ptrDeep; i++ {
+					// (an outer level of a multi-level pointer may be nil, as in valueGetter)
+					if newField.IsNil() {
+						return reflect.Value{}
+					}
 					newField = newField.Elem()
 				}
 				if (newField == reflect.Value{}) || (!initZero && newField.IsNil()) {
